@@ -364,10 +364,12 @@ func (b *ByteSlice) ContainsRune(obj Object) Object {
 	if err != nil {
 		return err
 	}
-	if len(s) != 1 {
+	// one character, which may take several bytes
+	runes := []rune(s)
+	if len(runes) != 1 {
 		return Errorf("byte_slice.contains_rune: argument must be a single character")
 	}
-	return NewBool(bytes.ContainsRune(b.value, rune(s[0])))
+	return NewBool(bytes.ContainsRune(b.value, runes[0]))
 }
 
 func (b *ByteSlice) Count(obj Object) Object {
@@ -426,10 +428,12 @@ func (b *ByteSlice) IndexRune(obj Object) Object {
 	if err != nil {
 		return err
 	}
-	if len(s) != 1 {
+	// one character, which may take several bytes
+	runes := []rune(s)
+	if len(runes) != 1 {
 		return Errorf("byte_slice.index_rune: argument must be a single character")
 	}
-	return NewInt(int64(bytes.IndexRune(b.value, rune(s[0]))))
+	return NewInt(int64(bytes.IndexRune(b.value, runes[0])))
 }
 
 func (b *ByteSlice) Repeat(obj Object) Object {
